@@ -409,11 +409,14 @@ static void e3(char* line) {
     snprintf(d, sizeof d, "%s/D", dirA); hx_mkdir(d);
     for (i = 0; i < n; i++) {
         static const char digits[] = "0123456789abcdefghijklmnopqrstuvwxyzABCDEFGHIJKLMNOPQRSTUVWXYZ";
-        int len = lens[lenmode < 4 ? lenmode : i % 4], t = (i + typeoff) % 3;
+        /* typeoff < 10: files, directories, symbolic links in rotation; typeoff >= 10: additionally FIFOs - entries whose type the host's
+           readdir reports with a d_type that has no WASI counterpart, so that the lister has to look them up one by one */
+        int len = lens[lenmode < 4 ? lenmode : i % 4], t = typeoff >= 10 ? (i + typeoff) % 5 : (i + typeoff) % 3;
         char nm[260];
         memset(nm, 'p', len); nm[len] = 0; nm[0] = digits[i];     /* unique first character, padded to the wanted length */
         snprintf(p, sizeof p, "%s/%s", d, nm);
-        if (t == 0) hx_write_file(p, "x"); else if (t == 1) hx_mkdir(p); else if (symlink("nowhere", p) != 0) _exit(71);
+        if (t == 0) hx_write_file(p, "x"); else if (t == 1) hx_mkdir(p); else if (t == 2) { if (symlink("nowhere", p) != 0) _exit(71); }
+        else if (mkfifo(p, 0644) != 0) _exit(71);
     }
     /* the host's own listing */
     dir = opendir(d);
